@@ -105,9 +105,10 @@ fn check_int(a: &mut Allocator, v: i128, acc: &mut Acc) {
 pub fn run(ctx: &Ctx) -> Report {
     let mut rep = Report::new("C14", "model_checking");
     // (a) BFS with the immutability oracle (the same engine as C12; depth chosen so it stays cheap here)
-    let template = Allocator::new().verif_fork();
+    // every worker builds its own start state: the harness must not require `Allocator: Sync` or `Send` (a change that
+    // adds interior mutability to the allocator would otherwise break the harness build instead of being judged)
     let (al, depth) = if ctx.quick() { (Alphabet::thin(), 4) } else { (Alphabet::full(), 4) };
-    let r = bfs(ctx, || St::new(template.verif_fork(), u32::MAX as usize), "new()", &al, depth, Modes::default(), 40_000_000);
+    let r = bfs(ctx, || St::new(Allocator::new(), u32::MAX as usize), "new()", &al, depth, Modes::default(), 40_000_000);
     rep.states = r.states;
     rep.transitions = r.transitions;
     rep.note("bfs", json!({"depth": depth, "states": r.states, "transitions": r.transitions}));
